@@ -1,1 +1,164 @@
-# GF(2) polynomial helpers (filled in below)
+"""GF(2)[x] helpers on Python ints (bit i = coefficient of x^i): used by the falsifiers of
+C06/C07/C15 to analyse the *real* code as a black box (Berlekamp–Massey, x^e mod P,
+primitivity, kernel vectors).  Not part of any proof."""
+
+F64 = [3, 5, 17, 257, 641, 65537, 6700417]
+F128 = F64 + [274177, 67280421310721]
+F256 = F128 + [59649589127497217, 5704689200685129054721]
+F512 = F256 + [1238926361552897, 93461639715357977769163558199606896584051237541638188580280321]
+FACTORS = {64: F64, 128: F128, 256: F256, 512: F512}
+
+def _check_factors():
+    for n, fs in FACTORS.items():
+        p = 1
+        for f in fs:
+            p *= f
+        assert p == (1 << n) - 1, n
+_check_factors()
+
+def deg(a):
+    return a.bit_length() - 1
+
+def polymod(a, P):
+    dp = deg(P)
+    while a.bit_length() - 1 >= dp and a:
+        a ^= P << (a.bit_length() - 1 - dp)
+    return a
+
+def polysq(a):
+    if a == 0:
+        return 0
+    return int("0".join(bin(a)[2:]), 2)
+
+def polymul(a, b):
+    r = 0
+    while b:
+        if b & 1:
+            r ^= a
+        a <<= 1
+        b >>= 1
+    return r
+
+def powx(e, P):
+    """x^e mod P"""
+    r = 1
+    for bit in bin(e)[2:]:
+        r = polymod(polysq(r), P)
+        if bit == "1":
+            r = polymod(r << 1, P)
+    return r
+
+def berlekamp_massey(bits):
+    """minimal connection polynomial C (C[0]=1) of the bit sequence; returns (C as int, L).
+    s[i] = sum_{j=1..L} C[j] s[i-j]."""
+    n = len(bits)
+    C, B = 1, 1
+    L, m = 0, 1
+    for i in range(n):
+        d = bits[i]
+        c = C >> 1
+        j = 1
+        # discrepancy
+        t = C
+        acc = 0
+        for j in range(1, L + 1):
+            if (C >> j) & 1:
+                acc ^= bits[i - j]
+        d ^= acc
+        if d == 0:
+            m += 1
+        elif 2 * L <= i:
+            T = C
+            C ^= B << m
+            L = i + 1 - L
+            B = T
+            m = 1
+        else:
+            C ^= B << m
+            m += 1
+    return C, L
+
+def min_poly_from_bits(bits):
+    """characteristic (minimal) polynomial P(x) of the linear recurrence generating bits,
+    as int with bit i = coeff of x^i, degree L (reciprocal of the connection polynomial)."""
+    C, L = berlekamp_massey(bits)
+    P = 0
+    for j in range(L + 1):
+        if (C >> j) & 1:
+            P |= 1 << (L - j)
+    return P, L
+
+def is_primitive(P, n):
+    """(ok, reason): P of degree n is primitive over GF(2) (n in FACTORS)"""
+    if deg(P) != n:
+        return False, f"degree {deg(P)} != {n}"
+    if not (P & 1):
+        return False, "x divides P (singular transition)"
+    full = (1 << n) - 1
+    if powx(full, P) != 1:
+        return False, "x^(2^n-1) != 1 mod P"
+    for p in FACTORS[n]:
+        if powx(full // p, P) == 1:
+            return False, f"x^((2^n-1)/{p}) == 1 mod P: period divides (2^n-1)/{p}"
+    return True, "primitive"
+
+def small_factors(P, maxdeg=22):
+    """distinct-degree factorisation up to maxdeg: list of (d, product of irreducible factors of degree d)"""
+    out = []
+    f = P
+    h = 2  # x
+    for d in range(1, maxdeg + 1):
+        if deg(f) < 2 * d and deg(f) < d:
+            break
+        h = polymod(polysq(h), f)      # x^(2^d) mod f
+        g = polygcd(h ^ 2, f)
+        if g != 1:
+            out.append((d, g))
+            f = polydiv(f, g)
+            h = polymod(h, f) if deg(f) > 0 else 0
+        if deg(f) <= 0:
+            break
+    return out
+
+def polygcd(a, b):
+    while b:
+        a, b = b, polymod(a, b)
+    return a
+
+def polydiv(a, b):
+    q = 0
+    db = deg(b)
+    while a and deg(a) >= db:
+        s = deg(a) - db
+        q |= 1 << s
+        a ^= b << s
+    return q
+
+def rank_and_kernel(cols, n):
+    """cols[j] = image of basis vector e_j (ints, n bits). Returns (rank, kernel vector or None):
+    a non-zero v with M v = 0."""
+    basis = {}   # pivot bit -> (vector, combination)
+    for j, c in enumerate(cols):
+        v, comb = c, 1 << j
+        while v:
+            p = v.bit_length() - 1
+            if p in basis:
+                bv, bc = basis[p]
+                v ^= bv
+                comb ^= bc
+            else:
+                basis[p] = (v, comb)
+                break
+        if v == 0:
+            return len(basis), comb
+    return len(basis), None
+
+def apply_cols(cols, v):
+    r = 0
+    j = 0
+    while v:
+        if v & 1:
+            r ^= cols[j]
+        v >>= 1
+        j += 1
+    return r
